@@ -97,13 +97,13 @@ def trial_fock(n, nelec, t, C):
 # ---- 1. exhaustive sum over field configurations ------------------------------------------------------------------
 @st.composite
 def sum_case(draw, tier, shard=0, nshards=1):
-    lat = draw(st.sampled_from([("chain", 2), ("chain", 3), ("chain", 3), ("chain", 4), ("grid", 4)] if tier == "thorough" else [("chain", 2), ("chain", 3), ("chain", 3), ("chain", 4), ("chain", 4)]))
+    lat = draw(st.sampled_from([("chain", 2), ("chain", 3), ("chain", 3), ("chain", 4), ("grid", 4)] if tier == "thorough" else [("chain", 3), ("chain", 3), ("chain", 4), ("chain", 4), ("chain", 2)]))
     n = lat[1]
     nelec = draw(st.sampled_from([(a, b) for a in range(1, n + 1) for b in range(1, a + 1) if a + b <= 2 * n - 1]))
     h1 = lattice_h1(*lat)
     t = draw(trial_and_walker(n, nelec, h1, kinds=(("uhf", "ghf")[shard % 2],) if nshards > 1 else ("uhf", "ghf")))
     return {
-        "lattice": list(lat), "nelec": list(nelec), "U": draw(st.sampled_from([0.5, 2.0, 4.0, 8.0])), "dt": draw(st.sampled_from([0.005, 0.05])),
+        "lattice": list(lat), "nelec": list(nelec), "U": draw(st.sampled_from([2.0, 4.0, 8.0, 0.5])), "dt": draw(st.sampled_from([0.005, 0.05])),
         "e_shift": draw(st.sampled_from([0.0, 0.2, -1.0])), "trial": t, "chol_class": draw(st.sampled_from(["on-site", "on-site", "zero"])),
         "slow": draw(st.booleans()),
     }
@@ -364,7 +364,7 @@ def fs_body(ctx, case):
 
 
 SUBCHECKS = [
-    SubCheck("exhaustive_field_sum", body=sum_body, strategy=sum_case, examples={"quick": 6, "thorough": 60}, shards={"quick": 4, "thorough": 8}, shrink=False),
+    SubCheck("exhaustive_field_sum", body=sum_body, strategy=sum_case, examples={"quick": 8, "thorough": 60}, shards={"quick": 4, "thorough": 8}, shrink=False),
     SubCheck("incremental_updates_all_pairs", body=pair_body, strategy=pair_case, examples={"quick": 12, "thorough": 150}, shards={"quick": 2, "thorough": 4}, shrink=False),
     SubCheck("fast_vs_slow", body=fs_body, strategy=fs_case, examples={"quick": 5, "thorough": 60}, shards={"quick": 4, "thorough": 8}, shrink=False),
 ]
